@@ -1,6 +1,8 @@
 package checks
 
 import (
+	"crypto/md5"
+	"encoding/hex"
 	"fmt"
 	"strings"
 	"testing"
@@ -35,6 +37,14 @@ func TestC19(t *testing.T) {
 	s2 := corpusS2(nodes, "1", b, cmds)
 	s3 := corpusS3(nodes, "1", "auto", b, cmdsCanary)
 	s3m := corpusS3(nodes, "1", "manual", b, cmdsLater)
+	// a canary that has already been paused and unpaused once, each time followed by a sync of both controllers (the
+	// replica set carries a Canary-Paused condition that went True and back to False): commands must still be obeyed
+	crs := canaryRSName("B")
+	s3again := corpusS3(nodes, "1", "auto", b, &w.Alpha{Kubectl: canaryCmds})
+	s3again.name = "S3-canary-after-pause-unpause"
+	s3again.first = []w.Event{evb("setTemplate", edsKey, "B"), ev("R_eds", edsKey), ev("R_eds", edsKey), ev("R_ers", "ns/"+crs), ev("gone", "ns/"+canaryRSName("A")+"-n1"), ev("R_ers", "ns/"+crs), ev("ready", "ns/"+crs+"-n1"), ev("R_ers", "ns/"+crs),
+		evb("kubectl", edsKey, "canary-pause"), ev("R_eds", edsKey), ev("R_ers", "ns/"+crs),
+		evb("kubectl", edsKey, "canary-unpause"), ev("R_eds", edsKey), ev("R_ers", "ns/"+crs), ev("R_eds", edsKey)}
 	type st struct {
 		sc *w.Scenario
 		s  *w.State
@@ -42,11 +52,11 @@ func TestC19(t *testing.T) {
 	var after []st
 	perSc := map[string]int{} // closure starts kept per scenario (a single cap would be used up by the first scenario)
 	k := 0
-	runWorld(t, run, []scOpt{s2, s3, s3m}, []func(*w.MonCtx){w.MonC19}, 0, func(sc *w.Scenario, s *w.State, d int) {
+	runWorld(t, run, []scOpt{s2, s3, s3m, s3again}, []func(*w.MonCtx){w.MonC19}, 0, func(sc *w.Scenario, s *w.State, d int) {
 		if s.Mem["lastcmd"] != "" {
 			k++
 			if h.Thorough() || k%4 == 0 {
-				if perSc[sc.Name] < 35000 {
+				if perSc[sc.Name] < 50000 {
 					perSc[sc.Name]++
 					after = append(after, st{sc, s})
 				} else {
@@ -130,9 +140,16 @@ func TestC19(t *testing.T) {
 	requireAntecedents(run, "C19/pause-interpreted", "C19/unpause-interpreted", "C19/validate-interpreted", "C19/fail-interpreted")
 	run.Cov["evaluations"] = run.Counter("transitions") + run.Counter("closures")
 	if n := run.Counter("after_states_not_kept"); n > 0 {
-		run.NotExhaustive(fmt.Sprintf("%d states beyond the first 35000 of a scenario were not used as closure starts", n))
+		run.NotExhaustive(fmt.Sprintf("%d states beyond the first 50000 of a scenario were not used as closure starts", n))
 	}
 	exit(run.Finish(fmt.Sprintf("BFS of a rolling update and of auto/manual canaries in which every sequence of up to %d kubectl-eds commands (all eight, real command bodies through the export shims) is interleaved with every order of reconciles, kubelet steps, restarts and a later template change; monitor C19 on every command (precondition, refusal leaves no trace, object diff limited to the documented annotation/condition); closures from the states after successful commands check the controller's interpretation; non-trivial = scenarios", b)))
+}
+
+// canaryRSName: canonical name the API layer gives the replica set of template tag in ns/foo.
+func canaryRSName(tag string) string {
+	tp := w.Tpl(tag)
+	sum := md5.Sum([]byte("ns/" + w.TemplateHash(&tp)))
+	return "foo-" + hex.EncodeToString(sum[:])[:6]
 }
 
 func canaryPods(s *w.State, rs string) []string {
